@@ -12,7 +12,7 @@ LEAN_MODULES = ["Econf.Props.C13", "Econf.Props.Struct", "Econf.Props.Tie"]
 THEOREMS = ["Econf.C13_section_codes", "Econf.C13_section_line", "Econf.C13_nodelim_line", "Econf.C13_first_error", "Econf.C13_error_range", "Econf.Struct.C13_messages", "Econf.C13_after_conventional", "Econf.C13_location_file", "Econf.C13_location_seq", "Econf.C13_location_first", "Econf.C13_location_history", "Econf.C13_layered_line", "Econf.Struct.tie_err_codes", "Econf.Struct.tie_parser_codes"]
 RULE = ("conventional documents with one injected malformed line of each kind (no closing bracket, text after bracket, empty section "
         "name, key and text without delimiter) at every kind of position, followed by arbitrary lines; alone and as a member of a "
-        "layered tree; plus missing files and the message of every code -1..30; distinct by (file content, kind, position)")
+        "layered tree (a fifth of them with one of the other layer directories being a regular file); plus missing files (no such name; a name below a regular file) and the message of every code -1..30; distinct by (file content, kind, position)")
 PATH = b"/etc/app/doc.conf"
 SHRINK = False
 
@@ -106,6 +106,16 @@ def tree_make(rng, sid):
         f = t.files[i]
         t.files[i] = (f[0], f[1], content, f[3], f[4])
         s.meta.update({"bad_path": f[0], "kind": kind, "line": nl + 1})
+    # one of the other layer directories is a regular file: everything "below" it is simply not there (ENOTDIR, not ENOENT)
+    if rng.random() < 0.2:
+        bp = s.meta.get("bad_path", b"")
+        cand = [d for d in p["dirs"] if d and d != b"/" and not bp.startswith(d + b"/")
+                and not any(o != d and (o.startswith(d + b"/") or d.startswith(o + b"/")) for o in p["dirs"] if o)]
+        if cand:
+            d = rng.choice(sorted(set(cand)))
+            t.files = [f for f in t.files if not f[0].startswith(d + b"/") and f[0] != d]
+            t.files.append((d, "file", b"this is not a directory\n", None, None))
+            s.meta["plain_layer"] = d
     t.emit(s)
     s.add("LOGOPEN", 1)
     cb = None
@@ -136,6 +146,10 @@ def misc_scenarios():
     s.mkdir(b"/etc")
     s.add("RF", 0, h(b"/etc/missing.conf"), h(b"="), h(b"#"))
     s.add("SLOT", 0)
+    # missing because a component of the path is a regular file
+    s.file(b"/etc/plain", b"x=1\n")
+    s.add("RF", 3, h(b"/etc/plain/x.conf"), h(b"="), h(b"#"))
+    s.add("SLOT", 3)
     s.add("RD", 1, h(b"/usr/etc"), h(b"/etc"), h(b"missing"), h(b"conf"), h(b"="), h(b"#"))
     s.add("RAW", 1)
     s.add("RC", 2, h(b"prj"), h(b"/usr/etc"), h(b"missing"), h(b"conf"), h(b"="), h(b"#"))
@@ -164,8 +178,8 @@ def oracle(s, lines):
                 return "message of code %d is not the documented %r" % (n, want)
         return None
     if m.get("misc") == "nofile":
-        if lines[:2] != ["rf E3 null", "slot null"]:
-            return "missing file: %r" % lines[:2]
+        if lines[:4] != ["rf E3 null", "slot null", "rf E3 null", "slot null"]:
+            return "missing file: %r" % lines[:4]
         if not any(l.startswith("rd E3") for l in lines) or not any(l.startswith("rc E3 null") for l in lines):
             return "missing file in a layered read is not reported as file-not-found"
         r = parse_raws(lines)
@@ -216,7 +230,7 @@ def nontrivial(s, lines):
 def histogram(s, lines):
     m = s.meta
     if m.get("tree"):
-        return ["tree_" + m["shape"], "tree_kind_" + m.get("kind", "none")]
+        return ["tree_" + m["shape"], "tree_kind_" + m.get("kind", "none")] + (["tree_layer_is_regular_file"] if m.get("plain_layer") else [])
     if "kind" in m:
         return ["kind_" + m["kind"], "pos_" + m["pos"], "line_%s" % ("1" if m["line"] == 1 else "2-5" if m["line"] <= 5 else "6+")]
     return ["misc"]
